@@ -18,13 +18,13 @@ Record c17_obs := mkObs {
 }.
 
 Inductive c17_case :=
-| C17Case (st0 : tm_state) (minter : addr) (src0 : list (pkey * N))
-          (addrs colls : list addr) (srctoks : list pkey) (tgttoks : list N)
+| C17Case (st0 : tm_state) (minter : N) (src0 : list (pkey * N))
+          (addrs colls : list N) (srctoks : list pkey) (tgttoks : list N)
           (init : c17_obs) (steps : list (N * wop * c17_obs)).
 
 Definition nlist_eqb := list_eqb N.eqb.
 
-Definition obs_of (addrs colls : list addr) (srctoks : list pkey) (tgttoks : list N) (ok : bool) (w : world) : c17_obs :=
+Definition obs_of (addrs colls : list N) (srctoks : list pkey) (tgttoks : list N) (ok : bool) (w : world) : c17_obs :=
   mkObs ok
         (flat_map (fun a => map (fun c => ledger (w_m w) a c) colls) addrs)
         (map (fun a => count (w_m w) a) addrs)
@@ -37,7 +37,7 @@ Definition obs_eqb (a b : c17_obs) : bool :=
   && (ob_mintable a =? ob_mintable b) && (ob_start a =? ob_start b) && (ob_limit a =? ob_limit b)
   && nlist_eqb (ob_src a) (ob_src b) && nlist_eqb (ob_tgt a) (ob_tgt b).
 
-Fixpoint run_check (addrs colls : list addr) (srctoks : list pkey) (tgttoks : list N)
+Fixpoint run_check (addrs colls : list N) (srctoks : list pkey) (tgttoks : list N)
                    (w : world) (steps : list (N * wop * c17_obs)) : bool :=
   match steps with
   | [] => true
